@@ -301,9 +301,11 @@ func init() {
 			for _, c := range CommandNames(rc.Ld) {
 				d := dg
 				if rc.Tier == "thorough" && (c == "EXPIRE" || c == "EXPIREAT" || c == "SETEX" || c == "SET") {
-					// seconds/milliseconds are multiplied by 10^9 / 10^6: 64-bit multiplication by such constants over 18 symbolic
-					// digits does not finish in any back end (unknown after minutes); 9 digits do
-					d = "9"
+					// seconds/milliseconds are multiplied by 10^9 / 10^6 and added to a symbolic clock: with 9 or 18 symbolic
+					// digits the queries do not come back (15 min without an answer; one portfolio run answered "sat" for an
+					// assertion and then could not produce the model, which is inconclusive, not a finding); 6 digits are
+					// decided in 1.4 s per query
+					d = "6"
 				}
 				js = append(js, JobSpec{Set: "redis", Fn: "HarnessC05Dispatch", Params: p("cmd", c, "strmax", sm, "digits", d, "listmax", lm), Split: 4})
 			}
@@ -313,7 +315,7 @@ func init() {
 		RequiredCovers: map[string][]string{"HarnessC05Dispatch": {"end"}, "HarnessC05Unknown": {"end", "unknown", "custom"}},
 		Bounds: func(tier string) map[string]interface{} {
 			if tier == "thorough" {
-				return map[string]interface{}{"commands": "every registered command that the independent grammar maps onto a handler operation (others are reported under covers: not-in-grammar)", "strings": "0..3 bytes, all byte values", "integers": "sign + 1..18 symbolic digits (1..9 for the expiry arguments of SET/SETEX/EXPIRE/EXPIREAT, whose multiplication by 10^9 is out of the solvers' reach at 18 digits)", "floats": "every 1..2-byte literal that parses, and inf/+inf/-inf for score bounds", "lists": "1..3 elements, duplicates allowed", "options": "all subsets, two orders, every letter case"}
+				return map[string]interface{}{"commands": "every registered command that the independent grammar maps onto a handler operation (others are reported under covers: not-in-grammar)", "strings": "0..3 bytes, all byte values", "integers": "sign + 1..18 symbolic digits (1..6 for the expiry arguments of SET/SETEX/EXPIRE/EXPIREAT: their multiplication by 10^9 plus the symbolic clock is out of the solvers' reach from 9 digits on)", "floats": "every 1..2-byte literal that parses, and inf/+inf/-inf for score bounds", "lists": "1..3 elements, duplicates allowed", "options": "all subsets, two orders, every letter case"}
 			}
 			return map[string]interface{}{"commands": "every registered command that the independent grammar maps onto a handler operation (others are reported under covers: not-in-grammar)", "strings": "0..2 bytes, all byte values", "integers": "sign + 1..2 symbolic digits", "floats": "every 1..2-byte literal that parses, and inf/+inf/-inf for score bounds", "lists": "1..2 elements, duplicates allowed", "options": "all subsets, two orders, every letter case"}
 		},
@@ -638,7 +640,7 @@ func init() {
 						continue
 					}
 					js = append(js, JobSpec{Set: "redis", Fn: "HarnessC16Atomic", Params: p("a", a, "b", b, "preempt", pre)})
-					js = append(js, JobSpec{Set: "server", Fn: "HarnessC16Store", Params: p("a", a, "b", b, "preempt", pre, "fixednow", "1")})
+					js = append(js, JobSpec{Set: "server", Fn: "HarnessC16Store", Params: p("a", a, "b", b, "preempt", pre, "fixednow", "1"), Split: 5})
 				}
 			}
 			// collection commands of the example store: every pair within one data type, on the same key
@@ -654,7 +656,7 @@ func init() {
 			} {
 				for i, a := range fam {
 					for _, b := range fam[i:] {
-						js = append(js, JobSpec{Set: "server", Fn: "HarnessC16Coll", Params: p("a", a, "b", b, "preempt", cpre, "fixednow", "1")})
+						js = append(js, JobSpec{Set: "server", Fn: "HarnessC16Coll", Params: p("a", a, "b", b, "preempt", cpre, "fixednow", "1"), Split: 5})
 					}
 				}
 			}
